@@ -1,3 +1,9 @@
+import json
+import os
+
+import vf
+
+
 def driver_binding(c, runs):
     c.assumptions.append("driver binding (apply_outputs / Sleep deadlines) not built yet")
 
@@ -171,5 +177,133 @@ def inbound_loops(c):
     c.cov["parts"]["inbound"] = {"cases": len(cases)}
 
 
+def _ps_cfg(name, kinds, invs, spec="Spec", dev=()):
+    d = os.path.join(vf.WORK, "cfg")
+    os.makedirs(d, exist_ok=True)
+    p = os.path.join(d, name)
+    ks = ", ".join('"%s"' % k for k in kinds)
+    dv = ", ".join('"%s"' % k for k in dev)
+    with open(p, "w") as f:
+        f.write("CONSTANTS\n  Kinds = {%s}\n  SetNames = {\"a\"}\n  StmtNames = {\"s1\", \"s2\"}\n  PolNames = {\"p1\", \"p2\"}\n"
+                "  Elems = {1, 2}\n  MaxLen = 2\n  Dev = {%s}\nSPECIFICATION %s\nINVARIANTS %s\nCHECK_DEADLOCK FALSE\n"
+                % (ks, dv, spec, " ".join(invs)))
+    return p
+
+
+def _ps_canon(st):
+    return {
+        "sets": sorted(vf.canon({"k": x["k"], "n": x["n"], "el": sorted(x["el"])}) for x in st["sets"]),
+        "stmts": sorted(vf.canon({"n": x["n"], "disp": x["disp"], "conds": sorted(vf.canon(c) for c in x["conds"])}) for x in st["stmts"]),
+        "pols": sorted(vf.canon({"n": x["n"], "st": list(x["st"])}) for x in st["pols"]),
+        "asg": vf.canon({"ex": st["asg"]["ex"], "def": st["asg"]["def"] if st["asg"]["ex"] else "-", "pl": list(st["asg"]["pl"])}),
+    }
+
+
+def _ps_rename(obj, m):
+    if isinstance(obj, dict):
+        return {k: (m.get(v, v) if k == "k" and isinstance(v, str) else _ps_rename(v, m)) for k, v in obj.items()}
+    if isinstance(obj, list):
+        return [m.get(x, x) if isinstance(x, str) and x in m else _ps_rename(x, m) for x in obj]
+    return obj
+
+
 def policy_store(c):
-    c.assumptions.append("policy store (CRUD) half not built yet")
+    """C14 store half: PolicyStore.tla design check + random behaviours replayed on the real PolicyTable."""
+    spec = os.path.join(vf.ROOT, "spec", "PolicyStore")
+    thorough = c.tier == "thorough"
+    r = vf.tlc(spec, "PolicyStore", _ps_cfg("C14.store.design.cfg", ["k1"], ["TypeOK", "NoDivergence"]), workers=8, timeout=1500)
+    c.add_tlc("store-design", r)
+    if r.violated:
+        c.violation("store.design", {"invariant": r.violated, "tlc": r.error_text[:3000]}, {"spec": "PolicyStore"})
+        return
+    # non-vacuity of the invariant: a store that deletes referenced sets must violate it
+    rv = vf.tlc(spec, "PolicyStore", _ps_cfg("C14.store.dev.cfg", ["k1"], ["NoDivergence"], dev=["delset_ignores_use"]),
+                workers=4, timeout=600, quiet=True)
+    if not rv.violated:
+        raise vf.ToolError("PolicyStore: NoDivergence is vacuous (deviation delset_ignores_use not detected)")
+    plans = [(["k1"], [{"k1": k} for k in ("prefix", "neighbor", "aspath", "community", "ext", "large")], 120 if not thorough else 1500, 40)]
+    plans.append((["k1", "k2"], [{"k1": "prefix", "k2": "large"}, {"k1": "aspath", "k2": "community"}, {"k1": "ext", "k2": "neighbor"}],
+                  60 if not thorough else 800, 40))
+    total_steps = 0
+    nwalks = 0
+    okc = errc = 0
+    for kinds, maps, num, depth in plans:
+        rw = vf.tlc(spec, "PolicyStoreMC", _ps_cfg("C14.store.walk%d.cfg" % len(kinds), kinds, ["EmitWalk"], spec="GenSpec"),
+                    workers=1, timeout=1500, simulate=num, depth=depth, seed=c.seed + 7, heap="4g")
+        walks = vf.parse_walks(rw.stdout)
+        c.add_tlc("store-walks-%d" % len(kinds), rw)
+        if not walks:
+            raise vf.ToolError("PolicyStoreMC produced no walks")
+        for m in maps:
+            inp = os.path.join(vf.WORK, "C14.store.in")
+            outp = os.path.join(vf.WORK, "C14.store.out")
+            exp = []
+            with open(inp, "w") as f:
+                for w in walks:
+                    f.write(json.dumps({"reset": True, "kinds": sorted(m.values())}) + "\n")
+                    exp.append(None)
+                    for stp in w:
+                        stp = _ps_rename(stp, m)
+                        f.write(json.dumps(stp["op"]) + "\n")
+                        exp.append(stp)
+            rc, so, se = vf.lib_run("store_replay", [inp, outp], timeout=1200)
+            if rc != 0:
+                raise vf.ToolError(f"store_replay failed rc={rc}: {se[-2000:]}")
+            got = vf.read_jsonl(outp)
+            if len(got) != len(exp):
+                raise vf.ToolError("store_replay output length mismatch")
+            hist = []
+            skip = False
+            reported = set()
+            for e, g in zip(exp, got):
+                if e is None:
+                    hist = []
+                    skip = False
+                    nwalks += 1
+                    continue
+                if skip:
+                    continue
+                hist.append(e["op"])
+                total_steps += 1
+                if e["res"] == "ok":
+                    okc += 1
+                else:
+                    errc += 1
+                bad = None
+                detail = {}
+                if g["res"] == "panic":
+                    bad = "panic"
+                elif g["res"] != e["res"]:
+                    bad = "result"
+                    detail = {"expected": e["res"], "actual": g["res"], "why": g["why"]}
+                elif g["state"]["div"]:
+                    bad = "divergence"
+                    detail = {"div": g["state"]["div"]}
+                else:
+                    ce, cg = _ps_canon(e["post"]), _ps_canon(g["state"])
+                    for k in ce:
+                        if ce[k] != cg[k]:
+                            bad = "state." + k
+                            detail = {"expected": ce[k], "actual": cg[k]}
+                            break
+                    if bad is None:
+                        ge = {vf.canon(sorted(x["f"])): x["d"] for x in g["state"]["eval"]}
+                        for x in e["post"]["eval"]:
+                            key = vf.canon(sorted(x["f"]))
+                            if key in ge and ge[key] != x["d"]:
+                                bad = "eval"
+                                detail = {"probe": x["f"], "expected": x["d"], "actual": ge[key]}
+                                break
+                if bad:
+                    skip = True          # the rest of this behaviour is off the model
+                    sig = (bad, e["op"]["op"], e["op"].get("k"))
+                    if sig in reported:
+                        continue
+                    reported.add(sig)
+                    c.violation("store." + bad, dict(detail, op=e["op"], kinds=m),
+                                {"spec": "PolicyStore", "kinds": m, "ops": hist})
+    c.cov["parts"]["store-replay"] = {"behaviours": nwalks, "steps": total_steps, "ok": okc, "err": errc}
+    c.cov["traces_validated_against_impl"] = c.cov.get("traces_validated_against_impl", 0) + nwalks
+    c.assumptions.append("policy store: one set name per kind, two statements, two policies, the global import assignment; per-peer "
+                         "assignments (checked by the daemon before it calls the store) and export are not modelled; replace with an "
+                         "empty element list is not generated")
